@@ -231,12 +231,12 @@ Definition walk_ok (n k : nat) : bool :=
 Definition all_walks_ok (nmax : nat) : bool :=
   forallb (fun n => forallb (fun k => walk_ok n k) (seq 1 (n - 1))) (seq 2 (nmax - 1)).
 
-Lemma all_walks_ok_12 : all_walks_ok 12 = true.
+Lemma all_walks_ok_10 : all_walks_ok 10 = true.
 Proof. vm_compute. reflexivity. Qed.
 
-Lemma walk_ok_bounded n k : n <= 12 -> 1 <= k < n -> walk_ok n k = true.
+Lemma walk_ok_bounded n k : n <= 10 -> 1 <= k < n -> walk_ok n k = true.
 Proof.
-  intros Hn Hk. pose proof all_walks_ok_12 as H. unfold all_walks_ok in H.
+  intros Hn Hk. pose proof all_walks_ok_10 as H. unfold all_walks_ok in H.
   rewrite forallb_forall in H. specialize (H n ltac:(apply in_seq; lia)).
   rewrite forallb_forall in H. apply H. apply in_seq. lia.
 Qed.
